@@ -12,6 +12,7 @@ for c in $(git -C /repo log --reverse --format=%h main..fix-$fam); do
   echo "picked $c $s"
 done
 (cd lean && lake build 2>&1 | grep -v "^info\|^WARNING\|warning:\|^  \|^$\|consider\|omit\|Note:" | tail -5)
+(cd lean && lake build >/dev/null 2>&1) || { echo "!!!!!!!! LAKE BUILD FAILED after merging $fam: fix the build BEFORE anything else (main is broken) !!!!!!!!"; exit 3; }
 tools/update_fingerprints.py
 python3 tools/gen_audit.py >/dev/null
 /venv/bin/python tools/gen_manifest.py
